@@ -9,6 +9,7 @@ import (
 	"context"
 	"fmt"
 	"io"
+	"regexp"
 	"log/slog"
 	"sort"
 	"strings"
@@ -72,6 +73,8 @@ type Case struct {
 	// Race != nil: not a history but a run of the concurrent engine (race_test.go) with these parameters
 	Race *RaceParams `json:"race,omitempty"`
 	Ops  []Op        `json:"ops"`
+	// Scale != nil: a generated large-class history (scale_test.go) with these parameters
+	Scale *ScaleParams `json:"scale,omitempty"`
 	// Pipe != nil: a whole-instance scenario for the product model Inhibitor x Group (pipe_test.go)
 	Pipe *sysrun.Scenario `json:"pipe,omitempty"`
 }
@@ -266,6 +269,20 @@ var matcherPool = []MatcherJ{
 	{"!~", "inst", "2|3"}, {"=~", "inst", ".*"}, {"=", "zone", ""}, {"!=", "cluster", "b"},
 }
 
+// regexp shapes that tempt a fast path (".+", ".*", "lit.*", ".*lit") and values with line breaks, on which an
+// anchored RE2 "." (no (?s)) and HasPrefix/HasSuffix/non-empty tests disagree
+var nlMatcherPool = []MatcherJ{
+	{"=~", "inst", ".+"}, {"=~", "inst", ".*"}, {"=~", "inst", "node.*"}, {"=~", "inst", ".*12"}, {"!~", "inst", ".+"}, {"!~", "inst", "node.*"},
+	{"=~", "cluster", ".*-db"}, {"=~", "cluster", "orders.*"}, {"=~", "cluster", ".+"}, {"!~", "cluster", ".*-db"}, {"!~", "cluster", ".*"},
+	{"=~", "sev", "cr.*"}, {"=~", "sev", ".*rn"}, {"=~", "sev", ".+"}, {"=", "sev", "crit"}, {"=", "sev", "warn"},
+}
+
+var (
+	nlInsts    = []string{"node-7\nrack 12", "node-7\nrack 12", "node-7", "\n", "node-1\n", "\nnode-12", "node\r\n12", ""}
+	nlClusters = []string{"orders\n-db", "orders-db", "orders\n-db", "a\n", "a", "\r\n", ""}
+	nlSevs     = []string{"crit", "warn", "crit", "warn", "crit\n", "\nwarn", ""}
+)
+
 var equalPool = [][]string{{}, {"cluster"}, {"cluster"}, {"cluster"}, {"inst"}, {"cluster", "inst"}, {"zone"}, {"cluster", "zone"}, {"sev"}, {"inst", "inst"}}
 
 var (
@@ -377,11 +394,41 @@ func genAdvLset(r *vh.Rand, rules []RuleJ, have []map[string]string) map[string]
 	}
 }
 
+func genNlLset(r *vh.Rand) map[string]string {
+	for {
+		m := map[string]string{}
+		if v := vh.Pick(r, nlSevs); v != "" {
+			m["sev"] = v
+		}
+		if v := vh.Pick(r, nlClusters); v != "" {
+			m["cluster"] = v
+		}
+		if v := vh.Pick(r, nlInsts); v != "" {
+			m["inst"] = v
+		}
+		if len(m) > 0 {
+			return m
+		}
+	}
+}
+
 func genCase(r *vh.Rand, maxOps int) Case {
 	c := Case{ProviderGC: vh.Pick(r, provGCs)}
 	nr := vh.Pick(r, []int{1, 1, 1, 2, 2, 3})
 	adversarial := r.Chance(1, 3)
+	lineBreaks := !adversarial && r.Chance(1, 4) // regexp fast-path shapes x values with line breaks
 	for i := 0; i < nr; i++ {
+		if lineBreaks {
+			pick := func() []MatcherJ {
+				out := []MatcherJ{vh.Pick(r, nlMatcherPool)}
+				if r.Chance(1, 3) {
+					out = append(out, vh.Pick(r, nlMatcherPool))
+				}
+				return out
+			}
+			c.Rules = append(c.Rules, RuleJ{Src: pick(), Tgt: pick(), Equal: append([]string{}, vh.Pick(r, equalPool)...)})
+			continue
+		}
 		if adversarial {
 			c.Rules = append(c.Rules, RuleJ{Src: append([]MatcherJ{}, vh.Pick(r, advSrcPool)...), Tgt: append([]MatcherJ{}, vh.Pick(r, advTgtPool)...), Equal: append([]string{}, vh.Pick(r, advEqualPool)...)})
 			continue
@@ -394,6 +441,8 @@ func genCase(r *vh.Rand, maxOps int) Case {
 		var m map[string]string
 		if adversarial && tries < 200 {
 			m = genAdvLset(r, c.Rules, c.Lsets)
+		} else if lineBreaks && tries < 200 {
+			m = genNlLset(r)
 		} else {
 			m = genLset(r)
 		}
@@ -486,8 +535,50 @@ func coqPut(l int, a *types.Alert) string {
 	return vh.App("XPut", vh.Z(int64(l)), vh.Z(znano(a.StartsAt)), vh.Z(znano(a.EndsAt)), vh.Z(znano(a.UpdatedAt)))
 }
 
+// oMatchers: the direct oracle's own matcher evaluation, independent of pkg/labels: Go's regexp, anchored here
+// (alertmanager matchers are anchored RE2 without (?s): "." does not match a line break)
+type oMatcher struct {
+	t, n, v string
+	re      *regexp.Regexp
+}
+type oMatchers []oMatcher
+
+func mkOracleMatchers(ms []MatcherJ) oMatchers {
+	out := oMatchers{}
+	for _, m := range ms {
+		om := oMatcher{t: m.T, n: m.N, v: m.V}
+		if m.T == "=~" || m.T == "!~" {
+			om.re = regexp.MustCompile("^(?:" + m.V + ")$")
+		}
+		out = append(out, om)
+	}
+	return out
+}
+
+func (m oMatcher) matchesValue(v string) bool {
+	switch m.t {
+	case "=":
+		return v == m.v
+	case "!=":
+		return v != m.v
+	case "=~":
+		return m.re.MatchString(v)
+	default:
+		return !m.re.MatchString(v)
+	}
+}
+
+func (ms oMatchers) Matches(ls model.LabelSet) bool {
+	for _, m := range ms {
+		if !m.matchesValue(string(ls[model.LabelName(m.n)])) {
+			return false
+		}
+	}
+	return true
+}
+
 type ruleM struct {
-	src, tgt labels.Matchers
+	src, tgt oMatchers
 	equal    []string
 }
 
@@ -536,7 +627,22 @@ func runCase(t *testing.T, c *Case) result {
 		for _, rj := range c.Rules {
 			src, tgt := mkMatchers(rj.Src), mkMatchers(rj.Tgt)
 			cfg = append(cfg, amcommoncfg.InhibitRule{SourceMatchers: amcommoncfg.Matchers(src), TargetMatchers: amcommoncfg.Matchers(tgt), Equal: rj.Equal})
-			rules = append(rules, ruleM{src: src, tgt: tgt, equal: sortedUnique(rj.Equal)})
+			rules = append(rules, ruleM{src: mkOracleMatchers(rj.Src), tgt: mkOracleMatchers(rj.Tgt), equal: sortedUnique(rj.Equal)})
+			// the code's matchers against the anchored regexp, on every value of the case
+			for _, side := range [][]MatcherJ{rj.Src, rj.Tgt} {
+				real, own := mkMatchers(side), mkOracleMatchers(side)
+				for k := range side {
+					for _, m := range c.Lsets {
+						v := m[side[k].N]
+						if real[k].Matches(v) != own[k].matchesValue(v) {
+							violate("matcher-differs-from-anchored-regexp", fmt.Sprintf("rule matcher %s%s%q: labels.Matcher.Matches(%q)=%v but the anchored regular expression / comparison says %v", side[k].N, side[k].T, side[k].V, v, real[k].Matches(v), own[k].matchesValue(v)))
+						}
+						if strings.ContainsAny(v, "\r\n") && (side[k].T == "=~" || side[k].T == "!~") {
+							res.tags["regexp-matcher-on-value-with-line-break"]++
+						}
+					}
+				}
+			}
 		}
 		lsets := make([]model.LabelSet, len(c.Lsets))
 		fpIdx := map[model.Fingerprint]int{}
@@ -1109,12 +1215,20 @@ func TestCheck(t *testing.T) {
 		for i := 0; i < n; i++ {
 			cases = append(cases, genCase(r.Fork(), maxOps))
 		}
+		cases = append(cases, scalePlan(env, r.Fork())...)
 	}
 	for i := range cases {
 		c := &cases[i]
-		res := runCase(t, c)
+		var res result
+		if c.Scale != nil {
+			res = runScale(t, c)
+		} else {
+			res = runCase(t, c)
+		}
 		nontrivial := res.tags["verdict-muted"] > 0 && res.tags["verdict-not-muted"] > 0
-		run.Add(res.term, c, nontrivial)
+		if c.Scale == nil || c.Scale.Model {
+			run.Add(res.term, c, nontrivial) // (the huge scale cases are judged by the direct oracle only)
+		}
 		for _, v := range res.viol {
 			run.Violate(v.Key, v.What, v.Case)
 		}
